@@ -89,13 +89,14 @@ type Chain struct {
 	id      uint64
 	canon   []*Block          // index = block number (genesis = 0)
 	all     map[string]*Block // every version ever created, by hash hex
+	byNum   map[uint64][]*Block
 	nextVer uint64
 	content Content
 	events  int
 }
 
 func NewChain(id uint64, content Content) *Chain {
-	c := &Chain{id: id, all: map[string]*Block{}, content: content}
+	c := &Chain{id: id, all: map[string]*Block{}, byNum: map[uint64][]*Block{}, content: content}
 	c.mu.Lock()
 	c.appendLocked()
 	c.mu.Unlock()
@@ -132,6 +133,7 @@ func (c *Chain) appendLocked() *Block {
 	}
 	c.canon = append(c.canon, b)
 	c.all[b.HashHex()] = b
+	c.byNum[num] = append(c.byNum[num], b)
 	return b
 }
 
@@ -195,6 +197,13 @@ func (c *Chain) ByHash(h []byte) *Block {
 	c.mu.Lock()
 	defer c.mu.Unlock()
 	return c.all[hex.EncodeToString(h)]
+}
+
+// VersionsAt returns every version ever created at height n.
+func (c *Chain) VersionsAt(n uint64) []*Block {
+	c.mu.Lock()
+	defer c.mu.Unlock()
+	return append([]*Block(nil), c.byNum[n]...)
 }
 
 func (c *Chain) Versions() int {
